@@ -1,7 +1,8 @@
 #!/bin/bash
 # tools/selftest.sh seeds|benign|clean [tier]
-#   seeds : every /verif/seeded/* change applied to /repo in turn; the check of its property (and the
-#           other checks recorded as catching it) must exit 1; /repo is restored after each.
+#   seeds : every /verif/seeded/* change applied to /repo in turn; the check of its property and the
+#           other checks recorded as catching it are run; at least one must exit 1, none may exit 2;
+#           /repo is restored after each. tools/apply_selftest_log.py <log> writes the outcomes into meta.json.
 #   benign: every /verif/selftest/benign/*.diff applied in turn; EVERY quick check must exit 0.
 #   clean : every check on the untouched tree must exit 0.
 set -u
@@ -32,18 +33,22 @@ benign)
     restore
   done;;
 seeds)
-  for d in seeded/*/; do
+  for d in seeded/C*/; do
     n=$(basename $d)
     props=$(python3 -c "
 import json;m=json.load(open('$d/meta.json'))
 det=m.get('detected_by') or {}
-ps=sorted({k.split(':')[0] for k,v in det.items() if v['exit']==1}) or [m['property']]
+ps=sorted({k.split(':')[0] for k,v in det.items() if v['exit']==1} | {m['property']})
 print(' '.join(ps))")
     git -C "$REPO" apply "$PWD/$d/patch.diff" || { echo "cannot apply $n"; fail=1; continue; }
+    caught=0
     for p in $props; do
       timeout 1200 ./check $p --tier $tier >/dev/null 2>&1; c=$?
-      echo "seed $n $p exit=$c"; [ $c = 1 ] || fail=1
+      echo "seed $n $p exit=$c"; [ $c = 1 ] && caught=1
+      # a check that used to catch this seed and no longer does, or a machinery exit, is a failure
+      [ $c = 1 ] || [ $c = 0 ] || fail=1
     done
+    [ $caught = 1 ] || { echo "seed $n NOT CAUGHT"; fail=1; }
     restore
   done;;
 esac
